@@ -2,11 +2,36 @@ module verif/harness
 
 go 1.21.6
 
-require github.com/evolbioinfo/gotree v0.0.0
+require (
+	github.com/evolbioinfo/goalign v0.3.7-0.20230906113011-fcecb09f9d43
+	github.com/evolbioinfo/gotree v0.0.0
+	github.com/spf13/cobra v1.5.0
+	github.com/spf13/pflag v1.0.5
+)
 
 require (
+	git.sr.ht/~sbinet/gg v0.5.0 // indirect
+	github.com/abiosoft/ishell v2.0.0+incompatible // indirect
+	github.com/abiosoft/readline v0.0.0-20180607040430-155bce2042db // indirect
+	github.com/ajstarks/svgo v0.0.0-20211024235047-1546f124cd8b // indirect
+	github.com/armon/go-radix v1.0.0 // indirect
+	github.com/fatih/color v1.10.0 // indirect
+	github.com/flynn-archive/go-shlex v0.0.0-20150515145356-3f9db97f8568 // indirect
 	github.com/fredericlemoine/bitset v1.2.0 // indirect
+	github.com/fredericlemoine/cobrashell v0.0.0-20180921081141-49c72f93426c // indirect
 	github.com/fredericlemoine/gostats v0.1.1 // indirect
+	github.com/go-fonts/liberation v0.3.1 // indirect
+	github.com/go-latex/latex v0.0.0-20230307184459-12ec69307ad9 // indirect
+	github.com/go-pdf/fpdf v0.8.0 // indirect
+	github.com/golang/freetype v0.0.0-20170609003504-e2365dfdc4a0 // indirect
+	github.com/jlaffaye/ftp v0.0.0-20210307004419-5d4190119067 // indirect
+	github.com/llgcode/draw2d v0.0.0-20210313082411-577c1ead272a // indirect
+	github.com/mattn/go-colorable v0.1.8 // indirect
+	github.com/mattn/go-isatty v0.0.12 // indirect
+	golang.org/x/image v0.11.0 // indirect
+	golang.org/x/sys v0.11.0 // indirect
+	golang.org/x/text v0.12.0 // indirect
+	gonum.org/v1/plot v0.14.0 // indirect
 )
 
 replace github.com/evolbioinfo/gotree => /repo
